@@ -1212,6 +1212,8 @@ class TensorDict(TensorDictBase):
                 raise RuntimeError(
                     "batch_size and out.batch_size must be equal when both are provided."
                 )
+            if device is not NO_DEFAULT and device is not None:
+                device = torch.device(device)
             if device is not NO_DEFAULT and device != out.device:
                 if not checked:
                     raise RuntimeError(
@@ -1219,7 +1221,6 @@ class TensorDict(TensorDictBase):
                     )
                 else:
                     # same rule as the sequential _apply_nest
-                    device = torch.device(device)
                     out._device = device
                     for node in out.values(True, True, is_leaf=_is_tensor_collection):
                         if is_tensorclass(node):
@@ -1386,13 +1387,14 @@ class TensorDict(TensorDictBase):
                 raise RuntimeError(
                     "batch_size and out.batch_size must be equal when both are provided."
                 )
+            if device is not NO_DEFAULT and device is not None:
+                device = torch.device(device)
             if device is not NO_DEFAULT and device != out.device:
                 if not checked:
                     raise RuntimeError(
                         f"device and out.device must be equal when both are provided. Got device={device} and out.device={out.device}."
                     )
                 else:
-                    device = torch.device(device)
                     out._device = device
                     for node in out.values(True, True, is_leaf=_is_tensor_collection):
                         if is_tensorclass(node):
